@@ -145,6 +145,15 @@ impl Strat {
 }
 
 impl Case {
+    /// kernel cases are written with nat numerals, so only for small literals
+    fn small_literals(&self) -> bool {
+        self.atoms.iter().all(|a| {
+            a.args.iter().all(|g| !matches!(g, Arg::Const(k) if *k >= 5000))
+                && a.cs.iter().all(|c| match c {
+                    Cs::EqConst(_, k) | Cs::LtConst(_, k) | Cs::GtConst(_, k) | Cs::LeConst(_, k) | Cs::GeConst(_, k) => *k < 5000,
+                })
+        })
+    }
     fn json(&self) -> J {
         json!({
             "tables": self.tables.iter().map(|t| json!({"arity": t.arity, "n_keys": t.n_keys, "sorted": t.sorted, "rows": t.rows})).collect::<Vec<_>>(),
@@ -528,7 +537,7 @@ fn gen_multi(r: &mut Rng) -> Vec<Case> {
 
 /// the same rule set as egglog text (relations over i64, one ruleset, one `(run 1)`); constraints
 /// on columns are written as primitive guards
-fn multi_text(cases: &[Case], no_decomp: bool) -> String {
+fn multi_text(cases: &[Case], no_decomp: bool, delta: bool) -> String {
     let mut s = String::new();
     for (i, t) in cases[0].tables.iter().enumerate() {
         s.push_str(&format!("(relation R{i} ({}))\n", vec!["i64"; t.arity].join(" ")));
@@ -536,10 +545,18 @@ fn multi_text(cases: &[Case], no_decomp: bool) -> String {
     for (k, c) in cases.iter().enumerate() {
         s.push_str(&format!("(relation Out{k} ({}))\n", vec!["i64"; c.out.len().max(1)].join(" ")));
     }
+    // with `delta`: the second half of every table arrives after a first (run 1), so the second
+    // run evaluates the rules semi-naively on the new rows
+    let mut late = String::new();
     for (i, t) in cases[0].tables.iter().enumerate() {
-        for row in &t.rows {
+        for (ri, row) in t.rows.iter().enumerate() {
             let v: Vec<String> = row.iter().map(|x| x.to_string()).collect();
-            s.push_str(&format!("(R{i} {})\n", v.join(" ")));
+            let line = format!("(R{i} {})\n", v.join(" "));
+            if delta && ri >= t.rows.len() / 2 {
+                late.push_str(&line);
+            } else {
+                s.push_str(&line);
+            }
         }
     }
     for (k, c) in cases.iter().enumerate() {
@@ -569,7 +586,130 @@ fn multi_text(cases: &[Case], no_decomp: bool) -> String {
         s.push_str(&format!("(rule ({}) ((Out{k} {})){})\n", body.join(" "), outs.join(" "), if no_decomp { " :no-decomp" } else { "" }));
     }
     s.push_str("(run 1)\n");
+    if delta {
+        s.push_str(&late);
+        s.push_str("(run 1)\n");
+    }
     s
+}
+
+// ------------------------------------------------------------------------------------------
+// boundary-value data: column values around the byte boundaries of the value representation
+// (radix passes of the sorted indexes, u8/u16/u24/u31 limits), in blocks of >= 64 and >= 256 rows
+// in non-sorted order, with constant-narrowed atoms (sparse subsets -> on-the-fly sorted column
+// index), timestamp-narrowed atoms (dense tail subsets), whole-table scans (cached column index)
+// and size-skewed joins so that the big atom is the probed side.
+
+const BOUNDARY: &[u32] = &[0, 1, 255, 256, 257, 65535, 65536, 65537, 16777215, 16777216, 16777217, 2147483648, 4294967294];
+
+fn gen_boundary(r: &mut Rng) -> Vec<Case> {
+    // the largest value of the join column is a boundary value (that is where off-by-one bounds bite)
+    let mx = BOUNDARY[r.range(2, BOUNDARY.len() - 1)];
+    let pool: Vec<u32> = BOUNDARY.iter().copied().filter(|b| *b <= mx).collect();
+    let val = |r: &mut Rng| -> u32 {
+        let k = r.below(10);
+        if k < 3 {
+            *r.pick(&pool)
+        } else if k < 8 {
+            (r.below(1000) as u32).min(mx)
+        } else {
+            ((r.next() % (mx as u64 + 1)) as u32).min(mx)
+        }
+    };
+    let ntags = r.range(2, 3) as u32;
+    let per_tag = *r.pick(&[64usize, 70, 100, 130, 256, 300]);
+    // T(tag, x, y): tags interleaved, x unsorted, the maximum placed at a random position
+    let mut t_rows: Vec<Vec<u32>> = Vec::new();
+    let mut xs_by_tag: Vec<Vec<u32>> = Vec::new();
+    for _ in 0..ntags {
+        let mut xs: Vec<u32> = (0..per_tag).map(|_| val(r)).collect();
+        let pos = r.below(per_tag);
+        xs[pos] = mx;
+        if r.chance(1, 2) {
+            // mostly descending: certainly not in ascending order
+            xs.sort();
+            xs.reverse();
+            let p2 = r.below(per_tag);
+            xs.swap(0, p2);
+        }
+        xs_by_tag.push(xs);
+    }
+    for i in 0..per_tag {
+        for tag in 0..ntags {
+            t_rows.push(vec![tag + 1, xs_by_tag[tag as usize][i], i as u32]);
+        }
+    }
+    let mut seen = HashSet::new();
+    t_rows.retain(|row| seen.insert(row.clone()));
+    // S(x): a few probes: the maximum, present and absent values
+    let mut s_rows: Vec<Vec<u32>> = vec![vec![mx]];
+    for _ in 0..r.range(1, 4) {
+        s_rows.push(vec![*r.pick(&xs_by_tag[0])]);
+    }
+    s_rows.push(vec![mx.saturating_sub(1)]);
+    if mx < 4294967294 {
+        s_rows.push(vec![mx + 1]);
+    }
+    s_rows.push(vec![12345]);
+    let mut seen = HashSet::new();
+    s_rows.retain(|row| seen.insert(row.clone()));
+    // U(x, z): a medium table sharing x values
+    let mut u_rows: Vec<Vec<u32>> = Vec::new();
+    for k in 0..r.range(3, 12) {
+        let x = if k == 0 { mx } else { val(r) };
+        u_rows.push(vec![x, k as u32]);
+    }
+    // W(tag, x, ts): the same rows with a timestamp column (API: sorted table, fast range
+    // constraints select a dense tail)
+    let nts = 4u32;
+    let mut w_rows: Vec<Vec<u32>> = t_rows.iter().enumerate().map(|(i, row)| vec![row[0], row[1], (i as u32 * nts) / (t_rows.len() as u32)]).collect();
+    let mut seen = HashSet::new();
+    w_rows.retain(|row| seen.insert(row.clone()));
+    w_rows.sort_by_key(|row| row[2]);
+    let tables = vec![
+        TableD { arity: 3, n_keys: 3, sorted: false, rows: t_rows },
+        TableD { arity: 1, n_keys: 1, sorted: false, rows: s_rows },
+        TableD { arity: 2, n_keys: 2, sorted: false, rows: u_rows },
+        TableD { arity: 3, n_keys: 3, sorted: true, rows: w_rows },
+    ];
+    let nrules = r.range(1, 3);
+    let mut cases = Vec::new();
+    for _ in 0..nrules {
+        let tag = Arg::Const(r.range(1, ntags as usize) as u32);
+        let (atoms, nvars): (Vec<AtomD>, usize) = match r.below(7) {
+            // constant-narrowed big atom probed by a small one
+            0 | 1 => (vec![AtomD { table: 0, args: vec![tag, Arg::Var(0), Arg::Var(1)], cs: vec![] }, AtomD { table: 1, args: vec![Arg::Var(0)], cs: vec![] }], 2),
+            // whole big table probed by a small one
+            2 => (vec![AtomD { table: 0, args: vec![Arg::Var(2), Arg::Var(0), Arg::Var(1)], cs: vec![] }, AtomD { table: 1, args: vec![Arg::Var(0)], cs: vec![] }], 3),
+            // narrowed big atom joined with the medium table
+            3 => (vec![AtomD { table: 2, args: vec![Arg::Var(0), Arg::Var(2)], cs: vec![] }, AtomD { table: 0, args: vec![tag, Arg::Var(0), Arg::Var(1)], cs: vec![] }], 3),
+            // two narrowed copies of the big table joined on x, and the probe
+            4 => (
+                vec![
+                    AtomD { table: 0, args: vec![Arg::Const(1), Arg::Var(0), Arg::Var(1)], cs: vec![] },
+                    AtomD { table: 0, args: vec![Arg::Const(2), Arg::Var(0), Arg::Var(2)], cs: vec![] },
+                    AtomD { table: 1, args: vec![Arg::Var(0)], cs: vec![] },
+                ],
+                3,
+            ),
+            // timestamp-narrowed (dense tail of a sorted table), optionally also tag-narrowed
+            5 => {
+                let lo = r.range(1, (nts - 1) as usize) as u32;
+                let a0 = if r.chance(1, 2) { tag } else { Arg::Var(2) };
+                (vec![AtomD { table: 3, args: vec![a0, Arg::Var(0), Arg::Var(1)], cs: vec![Cs::GeConst(2, lo)] }, AtomD { table: 1, args: vec![Arg::Var(0)], cs: vec![] }], 3)
+            }
+            // a literal boundary value as an argument
+            _ => (vec![AtomD { table: 0, args: vec![Arg::Var(0), Arg::Const(mx), Arg::Var(1)], cs: vec![] }, AtomD { table: 2, args: vec![Arg::Const(mx), Arg::Var(2)], cs: vec![] }], 3),
+        };
+        let mut atoms = atoms;
+        if r.chance(1, 3) {
+            atoms.reverse();
+        }
+        let used: Vec<usize> = (0..nvars).filter(|x| atoms.iter().any(|a| a.args.contains(&Arg::Var(*x)))).collect();
+        let out: Vec<usize> = used.iter().copied().filter(|_| r.chance(5, 6)).collect();
+        cases.push(Case { tables: tables.clone(), atoms, nvars, out, shape: "boundary".into(), dist: format!("boundary-max-{mx}") });
+    }
+    cases
 }
 
 // ------------------------------------------------------------------------------------------
@@ -1060,6 +1200,9 @@ struct Stats {
     multi_rule_sets: usize,
     multi_rules: usize,
     multi_nontrivial: usize,
+    plans_large_literals: usize,
+    boundary_rule_sets: usize,
+    boundary_max_hist: BTreeMap<String, usize>,
     multi_heavy_groups_hist: BTreeMap<String, usize>,
 }
 
@@ -1238,7 +1381,8 @@ fn multi_api(
     for (s, nd, threads) in configs {
         st.engine_runs += 1;
         bump(&mut st.config_hist, &format!("multi:{}{}{}", s.name(), if nd { "/no-decomp" } else { "/decomp" }, if threads > 1 { "/threads" } else { "" }));
-        let in_scope = s == Strat::Gj;
+        let varfree = cases.iter().any(|c| c.atoms.iter().any(|a| a.args.iter().all(|g| matches!(g, Arg::Const(_)))));
+        let in_scope = s == Strat::Gj && !varfree;
         let input = json!({"path": "api-multi", "cases": cases.iter().map(|c| c.json()).collect::<Vec<_>>(), "strategy": s.name(), "no_decomp": nd, "threads": threads});
         let key = format!("c02-api-multi-{}-{}", s.name(), if nd { "nodecomp" } else { "decomp" });
         let mut push = |v: Viol, viols: &mut Vec<Viol>| {
@@ -1258,6 +1402,9 @@ fn multi_api(
                         bump(&mut st.bags_hist, &p["bags"].to_string());
                         plan_stage_kinds(&p, &mut st.stage_kind_hist);
                         match plan_coq(&p) {
+                            Some(_) if !c.small_literals() => {
+                                st.plans_large_literals += 1;
+                            }
                             Some(pc) => {
                                 let q = c.query_coq();
                                 if seen_plans.insert(format!("{q}|{pc}")) {
@@ -1331,6 +1478,9 @@ fn text_multi_check(program: &str, expected: &[BTreeSet<Vec<i64>>], key: &str, s
     #[cfg(egglog_verif)]
     for pj in egglog_core_relations::verif_plan_sink_take() {
         if let Ok(p) = serde_json::from_str::<J>(&pj) {
+            if p["atoms"].as_array().map(|a| a.is_empty()).unwrap_or(true) {
+                continue; // top-level fact actions compile atom-less plans
+            }
             bump(&mut st.text_plan_kind_hist, &format!("{}:{} bags", p["kind"].as_str().unwrap_or("?"), p["bags"]));
             plan_stage_kinds(&p, &mut st.text_stage_kind_hist);
         }
@@ -1375,7 +1525,7 @@ fn text_multi_check(program: &str, expected: &[BTreeSet<Vec<i64>>], key: &str, s
     }
 }
 
-fn multi_text_run(cases: &[Case], no_decomp: bool, st: &mut Stats, viols: &mut Vec<Viol>) {
+fn multi_text_run(cases: &[Case], no_decomp: bool, delta: bool, st: &mut Stats, viols: &mut Vec<Viol>) {
     let mut expected = Vec::new();
     for c in cases {
         let mut budget = 4_000_000u64;
@@ -1394,8 +1544,8 @@ fn multi_text_run(cases: &[Case], no_decomp: bool, st: &mut Stats, viols: &mut V
         };
         expected.push(e);
     }
-    let program = multi_text(cases, no_decomp);
-    text_multi_check(&program, &expected, &format!("c02-text-multi-{}", if no_decomp { "nodecomp" } else { "decomp" }), st, viols);
+    let program = multi_text(cases, no_decomp, delta);
+    text_multi_check(&program, &expected, &format!("c02-text-multi-{}{}", if no_decomp { "nodecomp" } else { "decomp" }, if delta { "-delta" } else { "" }), st, viols);
 }
 
 fn main() {
@@ -1429,6 +1579,9 @@ pub fn run(o: &Opts) -> i32 {
         multi_rule_sets: 0,
         multi_rules: 0,
         multi_nontrivial: 0,
+        plans_large_literals: 0,
+        boundary_rule_sets: 0,
+        boundary_max_hist: BTreeMap::new(),
         multi_heavy_groups_hist: BTreeMap::new(),
     };
     let mut viols: Vec<Viol> = Vec::new();
@@ -1669,8 +1822,22 @@ pub fn run(o: &Opts) -> i32 {
             let cases = gen_multi(&mut r);
             multi_api(&cases, i, &mut st, &mut w, &mut viols, &mut seen_multi, &mut api_only_count, None);
             if i % 2 == 0 {
-                multi_text_run(&cases, (i / 2) % 2 == 1, &mut st, &mut viols);
+                multi_text_run(&cases, (i / 2) % 2 == 1, i % 4 == 0, &mut st, &mut viols);
             }
+        }
+    }
+    if o.replay.is_none() {
+        // boundary-value data (API: Gj decomp/no-decomp + free-join observations; text: plain and
+        // with a second, semi-naive run over late-arriving rows)
+        let n_b = if o.thorough { 500 } else { 70 };
+        let mut seen_b: HashSet<String> = HashSet::new();
+        for i in 0..n_b {
+            let mut r = Rng::for_case(o.seed ^ 0xb0d1, i as u64);
+            let cases = gen_boundary(&mut r);
+            st.boundary_rule_sets += 1;
+            bump(&mut st.boundary_max_hist, &cases[0].dist);
+            multi_api(&cases, i, &mut st, &mut w, &mut viols, &mut seen_b, &mut api_only_count, None);
+            multi_text_run(&cases, i % 2 == 1, i % 3 != 0, &mut st, &mut viols);
         }
     }
     w.flush();
@@ -1681,7 +1848,7 @@ pub fn run(o: &Opts) -> i32 {
         "cases": w.total,
         "shards": w.shards,
         "distinct_nontrivial": nontrivial + st.multi_nontrivial,
-        "rule": "[multi-rule stream: rule sets of 2-4 rules (1-2 atoms each over one shared heavy table on the same column with different repeated-variable patterns / different slow bounds, joined with small tables) run by ONE run_rule_set / one (run 1), join groups of 17-48 rows, every rule's output compared with the nested-loop matcher, API + egglog text] conjunctive queries generated per (shape x data distribution) over 1-4 relations of arity 1-4 (all-key, functional and sorted tables), run on the real engine under 6 configurations (Gj/MinCover/PureSize x decomposition on/off, some under a 4-thread pool) and through egglog text; output table compared with a naive nested-loop matcher; a case is non-trivial iff it has >= 2 atoms and a non-empty match set (a multi-rule rule set: iff >= 2 of its rules have matches); distinct by (query, database); kernel cases = dumped single-bag plans (plan_ok), a sample with the database and the engine's rows (spec matcher and stage machine must reproduce them)",
+        "rule": "[boundary-value stream: 1-3 rules over tables whose join column has its maximum exactly at 255/256/257/65535/65536/65537/2^24-1/2^24/2^24+1/2^31/2^32-2, blocks of 64-300 rows per tag in non-sorted order, constant-narrowed / timestamp-narrowed / whole-table atoms probed by small tables; API and egglog text, text also with a second semi-naive run over late rows] [multi-rule stream: rule sets of 2-4 rules (1-2 atoms each over one shared heavy table on the same column with different repeated-variable patterns / different slow bounds, joined with small tables) run by ONE run_rule_set / one (run 1), join groups of 17-48 rows, every rule's output compared with the nested-loop matcher, API + egglog text] conjunctive queries generated per (shape x data distribution) over 1-4 relations of arity 1-4 (all-key, functional and sorted tables), run on the real engine under 6 configurations (Gj/MinCover/PureSize x decomposition on/off, some under a 4-thread pool) and through egglog text; output table compared with a naive nested-loop matcher; a case is non-trivial iff it has >= 2 atoms and a non-empty match set (a multi-rule rule set: iff >= 2 of its rules have matches); distinct by (query, database); kernel cases = dumped single-bag plans (plan_ok), a sample with the database and the engine's rows (spec matcher and stage machine must reproduce them)",
         "samples": samples,
         "violations": viols.iter().take(20).map(|v| json!({"what": v.what, "key": v.key, "input": v.input})).collect::<Vec<_>>(),
         "shape_hist": hist(&st.shape_hist),
@@ -1705,6 +1872,9 @@ pub fn run(o: &Opts) -> i32 {
             "cases_skipped_reference_budget": st.skipped_budget,
             "plans_with_3plus_stages_on_tables_over_32_rows": st.resort_candidates,
             "multi_rule_rule_sets": st.multi_rule_sets,
+            "boundary_value_rule_sets": st.boundary_rule_sets,
+            "boundary_value_column_max_hist": hist(&st.boundary_max_hist),
+            "plans_not_written_as_kernel_cases_large_literals": st.plans_large_literals,
             "multi_rule_rules": st.multi_rules,
             "multi_rule_heavy_group_hist": hist(&st.multi_heavy_groups_hist),
             "api_only_config_disagreements": api_only_count,
